@@ -110,8 +110,7 @@ fn rate_body(src: &mut Src, pre: &Pre, pkt: &[u8]) -> i8 {
 
 /// the poll that follows a RATE answer
 #[cfg(kani)]
-fn rate_then_timer(src: &mut Src, pre: &Pre, rm: i8) {
-    let acts = collect(src.handle_timer());
+fn rate_then_timer(src: &Src, pre: &Pre, rm: i8, acts: Acts) {
     if let Some(p) = &acts.sent {
         assert!(poll_byte(p) >= pre.last_poll, "C09: the poll after RATE is not faster than the previous one");
         assert!(poll_byte(p) >= rm, "C09: the poll after RATE honours the lengthened interval");
@@ -141,7 +140,8 @@ sharness! {
             rm = rate_body(&mut src, &pre, p.bytes());
         };
         for_b0!(quick, b0, run);
-        rate_then_timer(&mut src, &pre, rm);
+        let acts = timer_step!(v4fam, src, pre);
+        rate_then_timer(&src, &pre, rm, acts);
         kani::cover!(b0 == 0x1C, "RATE from a v3 server");
     }
 }
@@ -153,15 +153,16 @@ sharness! {
         let (mut src, pre) = any_source(PvClass::V5Family);
         let mut p = any_pkt5();
         let sel: u8 = kani::any();
-        put_be64(&mut p.h, 24, pre.pending_id);
-        p.h[1] = 0;
+        put_be64(&mut p.b, 24, pre.pending_id);
+        p.b[1] = 0;
         let mut rm: i8 = 0;
         let mut run = |b0: u8, b12: u8, b14: u8, b15: u8, last: u8| {
             p.set_hdr(b0, b12, b14, b15, last);
             rm = rate_body(&mut src, &pre, p.bytes());
         };
         for_v5hdr!(quick, sel, run);
-        rate_then_timer(&mut src, &pre, rm);
+        let acts = timer_step!(v5fam, src, pre);
+        rate_then_timer(&src, &pre, rm, acts);
     }
 }
 
@@ -183,8 +184,7 @@ fn deny_body(src: &mut Src, pre: &Pre, pkt: &[u8]) {
 
 /// the next timer demobilises iff the source is (still) unreachable after its start-up polls
 #[cfg(kani)]
-fn deny_then_timer(src: &mut Src, pre: &Pre) {
-    let acts = collect(src.handle_timer());
+fn deny_then_timer(src: &Src, pre: &Pre, acts: Acts) {
     let dead = pre.reach == 0 && pre.tries >= 3;
     if dead {
         assert!(acts.n == 1 && acts.kinds[0] == A_DEMOB && acts.sent.is_none(), "C09: denied and unreachable => exactly Demobilize");
@@ -218,7 +218,8 @@ sharness! {
             deny_body(&mut src, &pre, p.bytes());
         };
         for_b0!(quick, b0, run);
-        deny_then_timer(&mut src, &pre);
+        let acts = timer_step!(v4fam, src, pre);
+        deny_then_timer(&src, &pre, acts);
         kani::cover!(rstr, "RSTR");
         kani::cover!(!rstr && b0 == 0x1C, "DENY from a v3 server");
     }
@@ -231,15 +232,16 @@ sharness! {
         let (mut src, pre) = any_source(PvClass::V5Family);
         let mut p = any_pkt5();
         let sel: u8 = kani::any();
-        put_be64(&mut p.h, 24, pre.pending_id);
-        p.h[1] = 0;
-        p.h[2] = 127;
+        put_be64(&mut p.b, 24, pre.pending_id);
+        p.b[1] = 0;
+        p.b[2] = 127;
         let mut run = |b0: u8, b12: u8, b14: u8, b15: u8, last: u8| {
             p.set_hdr(b0, b12, b14, b15, last);
             deny_body(&mut src, &pre, p.bytes());
         };
         for_v5hdr!(quick, sel, run);
-        deny_then_timer(&mut src, &pre);
+        let acts = timer_step!(v5fam, src, pre);
+        deny_then_timer(&src, &pre, acts);
     }
 }
 
@@ -291,7 +293,7 @@ sharness! {
         let (mut src, pre) = any_source(PvClass::Any);
         let mut p = any_pkt5();
         let sel: u8 = kani::any();
-        p.h[1] = 0;
+        p.b[1] = 0;
         let mut run = |b0: u8, b12: u8, b14: u8, b15: u8, last: u8| {
             p.set_hdr(b0, b12, b14, b15, last);
             other_body(&mut src, &pre, p.bytes());
